@@ -27,6 +27,9 @@ import (
 	"github.com/0xPolygon/cdk-contracts-tooling/contracts/pp/l2-sovereign-chain/polygonzkevmglobalexitrootv2"
 	"github.com/agglayer/aggkit/bridgesync"
 	aggkitdb "github.com/agglayer/aggkit/db"
+	aggkitlog "github.com/agglayer/aggkit/log"
+	aggsync "github.com/agglayer/aggkit/sync"
+	aggkittypes "github.com/agglayer/aggkit/types"
 	"github.com/agglayer/aggkit/test/contracts/transparentupgradableproxy"
 	"github.com/agglayer/aggkit/tree"
 	treemigrations "github.com/agglayer/aggkit/tree/migrations"
@@ -74,6 +77,12 @@ type BEv struct {
 	MetaHash     string `json:"meta_hash"`     // the metadataHash argument passed
 	LeafRepo     string `json:"leaf_repo"`     // bridgesync.Bridge{event fields}.Hash()
 	Native       bool   `json:"native"`
+	// from the REAL appender: where the event was placed and what it recorded about the call; raw log data for the Gallina decoder
+	BlockNum uint64 `json:"block_num"`
+	BlockPos uint64 `json:"block_pos"`
+	BlockTS  uint64 `json:"block_ts"`
+	From     string `json:"from"`
+	Data     string `json:"data"`
 }
 
 type L1V2 struct {
@@ -164,6 +173,40 @@ type env struct {
 	ger    *polygonzkevmglobalexitrootv2.Polygonzkevmglobalexitrootv2
 	gaddr  common.Address
 	token  common.Address
+	// the REAL log appender of the bridge syncer (bridgesync.buildAppender through the hook VerifBuildAppender)
+	appender aggsync.LogAppenderMap
+}
+
+// traceRPC answers debug_traceTransaction(callTracer) for the harness's own transactions: the simulated backend has no tracer;
+// every transaction the harness sends is a direct call, so its call trace is the single root frame (from, to, input).
+type traceRPC struct{ e *env }
+
+func (t traceRPC) Call(result any, method string, args ...any) error {
+	if method != "debug_traceTransaction" || len(args) < 1 {
+		return fmt.Errorf("evm harness: unexpected RPC %s", method)
+	}
+	h, ok := args[0].(common.Hash)
+	if !ok {
+		return fmt.Errorf("evm harness: unexpected trace argument %T", args[0])
+	}
+	tx, _, err := t.e.be.Client().TransactionByHash(t.e.ctx, h)
+	if err != nil {
+		return err
+	}
+	from, err := types.Sender(types.LatestSignerForChainID(big.NewInt(chainID)), tx)
+	if err != nil {
+		return err
+	}
+	to := common.Address{}
+	if tx.To() != nil {
+		to = *tx.To()
+	}
+	raw, err := json.Marshal(map[string]any{"type": "CALL", "from": from.Hex(), "to": to.Hex(), "value": "0x0", "gas": "0x1", "gasUsed": "0x1",
+		"input": "0x" + hlib.Hex(tx.Data())})
+	if err != nil {
+		return err
+	}
+	return json.Unmarshal(raw, result)
 }
 
 func must(err error, what string) {
@@ -224,6 +267,9 @@ func newEnv(keySeed uint64) *env {
 	e.be.Commit()
 	e.bridge, err = polygonzkevmbridgev2.NewPolygonzkevmbridgev2(e.baddr, e.be.Client())
 	must(err, "bind bridge")
+	e.appender, err = bridgesync.VerifBuildAppender(aggkittypes.NewDefaultEthClient(e.be.Client(), traceRPC{e}), e.baddr, false, e.bridge,
+		aggkitlog.WithFields("module", "verif-evm"))
+	must(err, "bridgesync appender")
 	actualGER, err := e.bridge.GlobalExitRootManager(&bind.CallOpts{})
 	must(err, "globalExitRootManager()")
 	if actualGER != calculatedGERAddr {
@@ -307,21 +353,30 @@ func (e *env) decode(r *types.Receipt, st *Step) {
 		}
 		switch {
 		case l.Address == e.baddr && l.Topics[0] == bridgeEventSig:
+			// the REAL appender of the bridge syncer turns the log into a bridgesync.Bridge (block fields as sync.EVMDownloader fills them)
+			blk := &aggsync.EVMBlock{EVMBlockHeader: aggsync.EVMBlockHeader{Num: hd.Number.Uint64(), Hash: hd.Hash(), ParentHash: hd.ParentHash, Timestamp: hd.Time}}
+			must(e.appender[l.Topics[0]](blk, *l), "bridge log appender")
+			if len(blk.Events) != 1 {
+				must(fmt.Errorf("%d events for one BridgeEvent log", len(blk.Events)), "bridge log appender")
+			}
+			bev, ok := blk.Events[0].(bridgesync.Event)
+			if !ok || bev.Bridge == nil {
+				must(fmt.Errorf("appender produced %T", blk.Events[0]), "bridge log appender")
+			}
+			b := *bev.Bridge
+			_ = gasToken
+			// the contract's leaf value for this deposit: getLeafValue on the event AS EMITTED (decoded by the contract binding alone,
+			// independently of the syncer's appender)
 			ev, err := e.bridge.ParseBridgeEvent(*l)
 			must(err, "ParseBridgeEvent")
-			b := bridgesync.Bridge{
-				BlockNum: st.Block, BlockPos: uint64(l.Index), LeafType: ev.LeafType, OriginNetwork: ev.OriginNetwork,
-				OriginAddress: ev.OriginAddress, DestinationNetwork: ev.DestinationNetwork, DestinationAddress: ev.DestinationAddress,
-				Amount: ev.Amount, Metadata: ev.Metadata, DepositCount: ev.DepositCount,
-				IsNativeToken: ev.OriginAddress == gasToken || ev.OriginAddress == (common.Address{}),
-			}
-			mh := crypto.Keccak256Hash(b.Metadata)
-			lv, err := e.bridge.GetLeafValue(co, b.LeafType, b.OriginNetwork, b.OriginAddress, b.DestinationNetwork, b.DestinationAddress, b.Amount, mh)
+			mh := crypto.Keccak256Hash(ev.Metadata)
+			lv, err := e.bridge.GetLeafValue(co, ev.LeafType, ev.OriginNetwork, ev.OriginAddress, ev.DestinationNetwork, ev.DestinationAddress, ev.Amount, mh)
 			must(err, "bridge.getLeafValue")
 			rh := b.Hash()
 			st.BEvs = append(st.BEvs, BEv{LogIndex: l.Index, LT: b.LeafType, ONet: b.OriginNetwork, OAddr: hlib.Hex(b.OriginAddress[:]),
 				DNet: b.DestinationNetwork, DAddr: hlib.Hex(b.DestinationAddress[:]), Amount: hlib.Dec(b.Amount), Meta: hlib.Hex(b.Metadata),
-				DC: b.DepositCount, LeafContract: h32(lv), MetaHash: hlib.Hex(mh[:]), LeafRepo: hlib.Hex(rh[:]), Native: b.IsNativeToken})
+				DC: b.DepositCount, LeafContract: h32(lv), MetaHash: hlib.Hex(mh[:]), LeafRepo: hlib.Hex(rh[:]), Native: b.IsNativeToken,
+				BlockNum: b.BlockNum, BlockPos: b.BlockPos, BlockTS: b.BlockTimestamp, From: hlib.Hex(b.FromAddress[:]), Data: hlib.Hex(l.Data)})
 		case l.Address == e.gaddr && l.Topics[0] == updateV1Sig:
 			ev, err := e.ger.ParseUpdateL1InfoTree(*l)
 			must(err, "ParseUpdateL1InfoTree")
